@@ -391,18 +391,23 @@ theorem readPrefixCode_complex (A hskip : Nat) (cl d : List Nat) (body ebits : L
     (h4 : hskip < 4) (h1 : hskip ≠ 1)
     (hcl : readClLens (kStorageOrder.drop hskip) 32 (List.replicate 18 0) (body ++ ebits)
       = some (cl, ebits))
-    (hgo : readLensGo cl A (A + 1) ⟨[], 8, none⟩ ebits = some (d, [])) :
-    readPrefixCode A (bitsOf 2 hskip ++ (body ++ ebits)) = some (d, []) := by
+    (rest : List Bool)
+    (hgo : readLensGo cl A (A + 1) ⟨[], 8, none⟩ ebits = some (d, rest)) :
+    readPrefixCode A (bitsOf 2 hskip ++ (body ++ ebits)) = some (d, rest) := by
   have ho : rfcClOrder = kStorageOrder := by decide
   unfold readPrefixCode
   rw [takeBits_bitsOf 2 hskip _ (by omega)]
   simp only [Option.bind_eq_bind, Option.bind_some, h1, ↓reduceIte, ho, hcl, hgo]
 
-/-- `BrotliStoreHuffmanTree` on a Kraft-complete depth vector, read back by the RFC reader -/
-theorem store_tree_roundtrip (d : List Nat) (tree : List Node) (h704 : d.length ≤ 704)
-    (hd : ∀ x ∈ d, x ≤ 15) (hk : kraftSum 15 d = 32768) (htl : 37 ≤ tree.length) :
-    ∃ w, storeHuffmanTree d d.length tree [] = .ok w ∧
-      readPrefixCode d.length w = some (d, []) := by
+/-- `BrotliStoreHuffmanTree` on a Kraft-complete depth vector, in a bit-stream context
+(`w` already written, `rest` following), read back by the RFC reader with an alphabet
+size `A` that may be smaller than the vector (zero from `A` on) -/
+theorem store_tree_roundtrip_ctx0 (d : List Nat) (A : Nat) (tree : List Node) (w rest : List Bool)
+    (h704 : d.length ≤ 704)
+    (hd : ∀ x ∈ d, x ≤ 15) (hk : kraftSum 15 d = 32768) (htl : 37 ≤ tree.length)
+    (hA : A ≤ d.length) (hz : ∀ i, A ≤ i → i < d.length → d.getD i 0 = 0) :
+    ∃ bits, storeHuffmanTree d d.length tree w = .ok (w ++ bits) ∧
+      readPrefixCode A (bits ++ rest) = some (d.take A, rest) := by
   have h64 : d.length < 2 ^ 64 := by
     have : (704 : Nat) < 2 ^ 64 := by decide
     omega
@@ -516,17 +521,18 @@ theorem store_tree_roundtrip (d : List Nat) (tree : List Node) (h704 : d.length 
       · intro h16; rcases hshape e he with h | h | h <;> omega
       · intro h17; rcases hshape e he with h | h | h <;> omega
     obtain ⟨hskip, body, hw, hs4, hs1, hrd⟩ := header_roundtrip cl hcl2 hcl5m 2
-      (Or.inl ⟨by decide, hk5⟩) []
-      ((E.map (entryBitsU fun s => bitsOf (cl.getD s 0) (clBits.getD s 0))).flatten ++ [])
+      (Or.inl ⟨by decide, hk5⟩) w
+      ((E.map (entryBitsU fun s => bitsOf (cl.getD s 0) (clBits.getD s 0))).flatten ++ rest)
     rw [hw]
     simp only [Out.bind_ok, show ¬ (2 = 1) by decide, ↓reduceIte]
-    obtain ⟨hst, hgo⟩ := store_entries_roundtripU hio d hd h64 hk (rleSwitches d).1 (rleSwitches d).2
-      hvalid ([] ++ (bitsOf 2 hskip ++ body)) []
+    obtain ⟨hst, hgo⟩ := store_entries_roundtripA hio d A hd h64 hk hA hz (rleSwitches d).1
+      (rleSwitches d).2 hvalid (w ++ (bitsOf 2 hskip ++ body)) rest
     rw [← hE] at hst hgo
-    refine ⟨_, hst, ?_⟩
-    simp only [List.nil_append, List.append_assoc]
-    simp only [List.append_nil] at hrd hgo
-    exact readPrefixCode_complex d.length hskip cl d body _ hs4 hs1 hrd hgo
+    refine ⟨bitsOf 2 hskip ++ body ++
+      (E.map (entryBitsU fun s => bitsOf (cl.getD s 0) (clBits.getD s 0))).flatten, ?_, ?_⟩
+    · rw [hst]; simp only [List.append_assoc]
+    · simp only [List.append_assoc]
+      exact readPrefixCode_complex A hskip cl (d.take A) body _ hs4 hs1 hrd rest hgo
   · -- a single code-length symbol in use: its code word has zero length
     obtain ⟨e0, he0⟩ := List.exists_mem_of_ne_nil E hEne
     have hs0 : e0.1 < 18 := hsyms18 e0.1 (List.mem_map.mpr ⟨e0, he0, rfl⟩)
@@ -577,20 +583,30 @@ theorem store_tree_roundtrip (d : List Nat) (tree : List Node) (h704 : d.length 
       · intro h16; rcases hshape e he with h | h | h <;> omega
       · intro h17; rcases hshape e he with h | h | h <;> omega
     obtain ⟨hskip, body, hw, hs4, hs1, hrd⟩ := header_roundtrip ((List.replicate 18 0).set s0 1)
-      hcl18 h5 1 (Or.inr ⟨by decide, by rw [hk16]; decide⟩) []
-      ((E.map (entryBitsU fun _ => [])).flatten ++ [])
+      hcl18 h5 1 (Or.inr ⟨by decide, by rw [hk16]; decide⟩) w
+      ((E.map (entryBitsU fun _ => [])).flatten ++ rest)
     rw [hw]
     simp only [Out.bind_ok, ↓reduceIte]
     rw [setAt_of_lt _ s0 0 (by simp; omega), hset]
     simp only [Out.bind_ok]
-    obtain ⟨hst, hgo⟩ := store_entries_roundtripU hio d hd h64 hk (rleSwitches d).1 (rleSwitches d).2
-      hvalid ([] ++ (bitsOf 2 hskip ++ body)) []
+    obtain ⟨hst, hgo⟩ := store_entries_roundtripA hio d A hd h64 hk hA hz (rleSwitches d).1
+      (rleSwitches d).2 hvalid (w ++ (bitsOf 2 hskip ++ body)) rest
     rw [← hE] at hst hgo
-    refine ⟨_, hst, ?_⟩
-    simp only [List.nil_append, List.append_assoc]
-    simp only [List.append_nil] at hrd hgo
-    exact readPrefixCode_complex d.length hskip _ d body _ hs4 hs1 hrd hgo
+    refine ⟨bitsOf 2 hskip ++ body ++ (E.map (entryBitsU fun _ => [])).flatten, ?_, ?_⟩
+    · rw [hst]; simp only [List.append_assoc]
+    · simp only [List.append_assoc]
+      exact readPrefixCode_complex A hskip _ (d.take A) body _ hs4 hs1 hrd rest hgo
 
+
+/-- `BrotliStoreHuffmanTree` on a Kraft-complete depth vector, read back by the RFC reader -/
+theorem store_tree_roundtrip (d : List Nat) (tree : List Node) (h704 : d.length ≤ 704)
+    (hd : ∀ x ∈ d, x ≤ 15) (hk : kraftSum 15 d = 32768) (htl : 37 ≤ tree.length) :
+    ∃ w, storeHuffmanTree d d.length tree [] = .ok w ∧
+      readPrefixCode d.length w = some (d, []) := by
+  obtain ⟨bits, h1, h2⟩ := store_tree_roundtrip_ctx0 d d.length tree [] [] h704 hd hk htl
+    (Nat.le_refl _) (fun i h1 h2 => by omega)
+  refine ⟨bits, by simpa using h1, ?_⟩
+  simpa using h2
 
 /-- `BrotliStoreHuffmanTree(depths, num, …)` only looks at `depths[..num]` -/
 theorem storeHuffmanTree_take (depths : List Nat) (num : Nat) (tree : List Node) (w : Writer)
@@ -613,5 +629,28 @@ theorem store_tree_roundtrip_gen (depths : List Nat) (num : Nat) (tree : List No
   rw [hl] at this
   rw [storeHuffmanTree_take depths num tree [] hnum]
   exact this
+
+
+/-- `store_tree_roundtrip` in a bit-stream context: `w` already written, `rest` following,
+the reader's alphabet size `A ≤ num` with `depths[A..num]` zero (e.g. the distance code:
+140 histogram entries stored, 64 symbols read) -/
+theorem store_tree_roundtrip_ctx (depths : List Nat) (num A : Nat) (tree : List Node)
+    (w rest : List Bool) (hnum : num ≤ depths.length) (h704 : num ≤ 704)
+    (hd : ∀ x ∈ depths.take num, x ≤ 15) (hk : kraftSum 15 (depths.take num) = 32768)
+    (htl : 37 ≤ tree.length) (hA : A ≤ num)
+    (hz : ∀ i, A ≤ i → i < num → depths.getD i 0 = 0) :
+    ∃ bits, storeHuffmanTree depths num tree w = .ok (w ++ bits) ∧
+      readPrefixCode A (bits ++ rest) = some (depths.take A, rest) := by
+  have hl : (depths.take num).length = num := by rw [List.length_take]; omega
+  obtain ⟨bits, h1, h2⟩ := store_tree_roundtrip_ctx0 (depths.take num) A tree w rest (by omega) hd hk
+    htl (by omega) (by
+      intro i hi1 hi2
+      rw [hl] at hi2
+      have := hz i hi1 hi2
+      rw [List.getD_eq_getElem?_getD, List.getElem?_take, if_pos hi2, ← List.getD_eq_getElem?_getD]
+      exact this)
+  rw [hl] at h1
+  refine ⟨bits, by rw [storeHuffmanTree_take depths num tree w hnum]; exact h1, ?_⟩
+  rw [h2, List.take_take, Nat.min_eq_left hA]
 
 end BV.Lemmas.HuffmanStoreTree
